@@ -164,6 +164,7 @@ class Exec:
         ex = Exec(self.m, fn, env, sub, label)
         ex.call_model, ex.divmod_of = self.call_model, self.divmod_of
         ex.assumptions, ex.gens, ex.keep, ex.gen_names = self.assumptions, self.gens, self.keep, self.gen_names
+        ex.__dict__['root'] = self.__dict__.get('root') or self
         return ex
 
     # ---- forks ------------------------------------------------------------------------------
@@ -257,9 +258,24 @@ class Exec:
             if isinstance(e.op, ast.USub) and isinstance(v, Poly):
                 return -v
             raise AnalysisError(f'{self.label}: unsupported unary operator in `{pf.nsrc(e)}`')
+        if isinstance(e, ast.BoolOp) and not any(isinstance(x, (ast.Call, ast.Await)) for v in e.values[:-1] for x in ast.walk(v)):
+            # value of `a or b` / `a and b`: the first operand that decides it, else the last (`rem or part_size`)
+            for v in e.values[:-1]:
+                if self.truth(v) == isinstance(e.op, ast.Or):
+                    return self.ev(v)
+            return self.ev(e.values[-1])
         if isinstance(e, (ast.Compare, ast.BoolOp)):
             return Poly.const(int(self.truth(e)))
         if isinstance(e, ast.IfExp):
+            t = e.test
+            if isinstance(t, ast.Compare) and len(t.ops) == 1 and isinstance(t.ops[0], (ast.Lt, ast.LtE, ast.Gt, ast.GtE)) \
+                    and all(isinstance(x, (ast.Name, ast.Attribute)) for x in (t.left, t.comparators[0], e.body, e.orelse)):
+                # `a if a < b else b` and its variants are min / max whatever the comparison says where a == b
+                l, r, bo, oe = (pf.nsrc(x) for x in (t.left, t.comparators[0], e.body, e.orelse))
+                lv, rv = self.ev(t.left), self.ev(t.comparators[0])
+                if {bo, oe} == {l, r} and l != r and isinstance(lv, Poly) and isinstance(rv, Poly):
+                    less = isinstance(t.ops[0], (ast.Lt, ast.LtE))
+                    return self._pick('min' if (bo == l) == less else 'max', [lv, rv], pf.nsrc(e), [l, r])
             return self.ev(e.body if self.truth(e.test) else e.orelse)
         if isinstance(e, ast.BinOp):
             a, b = self.ev(e.left), self.ev(e.right)
@@ -280,7 +296,7 @@ class Exec:
         if isinstance(e, ast.Call):
             return self.ev_call(e)
         if isinstance(e, (ast.ListComp, ast.GeneratorExp)):
-            return Op('comp', node=e)
+            return Op('comp', node=e, env=dict(self.env))
         if isinstance(e, ast.Starred):
             return Op('starred', value=self.ev(e.value))
         if isinstance(e, ast.JoinedStr):
@@ -382,6 +398,8 @@ class Exec:
         """Start a new generation: the size is from now on decomposed by `b` (see the module docstring).  The unknowns of the decompositions
         so far keep their names and their meaning (values already computed stay valid); the fresh decomposition gets names tagged #k."""
         size, P, qv, rv = self.divmod_of  # type: ignore[misc]
+        if self.canonical_divmod is None:
+            self.canonical_divmod = self.divmod_of
         desc, csub = self.choose(f'case of the division `{src}`', self.rebase_cases)
         k = self.current_generation() + 1
         names = {n: f'{n}#{k}' for n in CANONICAL}
@@ -411,6 +429,8 @@ class Exec:
         for vi, v in enumerate(vals[1:], 1):
             op = '<=' if name == 'min' else '>='
             d = self.decide(op, v, best)
+            if d is None and self.decide(op, best, v) is True:
+                d = False   # the candidate so far is at least as good everywhere in this case (equal where the order is not strict)
             if d is None and self.script is not None:
                 d = self.must(op, v, best, f'{srcs[vi]} {op} {srcs[bi]}' if srcs else f'{self.inst(v)!r} {op} {self.inst(best)!r} in {src}')
             if d is None:
@@ -725,46 +745,33 @@ def _lower_bounds(ex: Exec) -> Dict[str, int]:
     return lb
 
 
-def real_points(ex: Exec, want: Set[str], limit: int = 729) -> Iterator[Dict[str, int]]:
-    """Valuations of the unknowns that are real inputs.  The unknowns of the FIRST generation (and the shared ones, `ex.keep`) are free
-    naturals; the unknowns of every later generation are computed from its link (quotient and remainder of the superseded size by the
-    divisor, both evaluated at the point) - a point whose computed values fall outside the case being analysed is dropped, and so is a
-    point that contradicts an assumption made at a fork.  Ordinary integer evaluation of normal forms, used for witnesses only."""
-    gens = ex.gens
+class _Solver:
+    """Values of unknowns that are defined by equations (the case substitutions `q#2 = 2 + u_#2`, `u_#2 = shift + c_#2 + e_#2`): given the
+    value of the left-hand side, the unknowns on the right are computed (all but one enumerated over 0..2 when there are several)."""
 
-    def closure(names: Set[str]) -> Set[str]:
-        out: Set[str] = set()
-        todo = list(names)
-        while todo:
-            n = todo.pop()
-            if n in out:
-                continue
-            out.add(n)
-            if n in ex.sub:
-                todo.extend(ex.sub[n].unknowns())
-        return out
-    roots = set(want)
-    for g in gens:
-        roots |= set(g.size.unknowns()) | set(g.div.unknowns())
-    for _, a, b, _, _ in ex.assumptions:
-        roots |= set(a.unknowns()) | set(b.unknowns())
-    solved = closure({g.d[key] for g in gens for key in ('q', 'P', 'rem') if g.d[key] is not None})   # computed from the links
-    free = sorted(n for n in closure(roots) if n not in ex.sub and n not in solved)
-    lb = _lower_bounds(ex)
-    cands = [[lb.get(n, 0) + d for d in (0, 1, 2)] for n in free]
-    combos = sorted(itertools.product(*[range(3)] * len(free)), key=lambda c: (sum(c), c))[:limit]
+    def __init__(self, ex: Exec):
+        self.ex = ex
+        self._inst: Dict[str, Poly] = {}
 
-    def known(pt: Dict[str, int], n: str) -> Optional[int]:
-        if n in ex.sub:
-            p = ex.inst(Poly.var(n))
-            return p.at(pt) if all(u in pt for u in p.unknowns()) else None
+    def inst_var(self, n: str) -> Poly:
+        if n not in self._inst:
+            self._inst[n] = self.ex.inst(Poly.var(n))
+        return self._inst[n]
+
+    def known(self, pt: Dict[str, int], n: str) -> Optional[int]:
+        if n in self.ex.sub:
+            p = self.inst_var(n)
+            for u in p.unknowns():
+                if u not in pt:
+                    return None
+            return p.at(pt)
         return pt.get(n)
 
-    def assign(pt: Dict[str, int], n: str, value: int) -> Iterator[Dict[str, int]]:
+    def assign(self, pt: Dict[str, int], n: str, value: int) -> Iterator[Dict[str, int]]:
         if value < 0:
             return
-        if n in ex.sub:
-            yield from assign_poly(pt, ex.sub[n], value)
+        if n in self.ex.sub:
+            yield from self.assign_poly(pt, self.ex.sub[n], value)
         elif n in pt:
             if pt[n] == value:
                 yield pt
@@ -773,10 +780,10 @@ def real_points(ex: Exec, want: Set[str], limit: int = 729) -> Iterator[Dict[str
             p2[n] = value
             yield p2
 
-    def assign_poly(pt: Dict[str, int], poly: Poly, value: int) -> Iterator[Dict[str, int]]:
-        unk = [u for u in poly.unknowns() if known(pt, u) is None]
+    def assign_poly(self, pt: Dict[str, int], poly: Poly, value: int) -> Iterator[Dict[str, int]]:
+        unk = [u for u in poly.unknowns() if self.known(pt, u) is None]
         if not unk:
-            vals = {u: known(pt, u) for u in poly.unknowns()}
+            vals = {u: self.known(pt, u) for u in poly.unknowns()}
             if poly.at(vals) == value:  # type: ignore[arg-type]
                 yield pt
             return
@@ -784,60 +791,146 @@ def real_points(ex: Exec, want: Set[str], limit: int = 729) -> Iterator[Dict[str
         if any(x in mono and mono != (x,) for mono in poly.t):
             return
         c = poly.t[(x,)]
+        lin = poly - Poly({(x,): c})
 
         def rest(pt1: Dict[str, int], others: List[str]) -> Iterator[Dict[str, int]]:
             if not others:
-                vals = {u: known(pt1, u) for u in poly.unknowns() if u != x}
-                r = value - (poly - Poly({(x,): c})).at(vals)  # type: ignore[arg-type]
+                vals = {u: self.known(pt1, u) for u in lin.unknowns()}
+                r = value - lin.at(vals)  # type: ignore[arg-type]
                 if r % c == 0:
-                    yield from assign(pt1, x, r // c)
+                    yield from self.assign(pt1, x, r // c)
                 return
             for v in (0, 1, 2):
-                for pt2 in assign(pt1, others[0], v):
+                for pt2 in self.assign(pt1, others[0], v):
                     yield from rest(pt2, others[1:])
         yield from rest(pt, unk[:-1])
 
+
+def _closure(ex: Exec, names: Set[str]) -> Set[str]:
+    out: Set[str] = set()
+    todo = list(names)
+    while todo:
+        n = todo.pop()
+        if n in out:
+            continue
+        out.add(n)
+        if n in ex.sub:
+            todo.extend(ex.sub[n].unknowns())
+    return out
+
+
+def _root_points(root: Exec, limit: int = 729) -> List[Dict[str, int]]:
+    """The realisable points of a finished execution (computed once): the unknowns of the ORIGINAL decomposition and the shared ones are free
+    naturals; the unknowns of every later generation / opaque division are computed from its link (quotient and remainder of the dividend by
+    the divisor, both evaluated at the point) - a point whose computed values fall outside the case being analysed is dropped, and so is a
+    point that contradicts an assumption made at a fork.  Ordinary integer evaluation of normal forms, used for witnesses only."""
+    stamp = (len(root.gens), len(root.assumptions), len(root.sub))
+    cached = root.__dict__.get('_points')
+    if cached is not None and cached[0] == stamp:
+        return cached[1]
+    ex, gens, sv = root, root.gens, _Solver(root)
+    roots: Set[str] = set(ex.sub)
+    for g in gens:
+        roots |= set(g.size.unknowns()) | set(g.div.unknowns())
+    for _, a, b, _, _ in ex.assumptions:
+        roots |= set(a.unknowns()) | set(b.unknowns())
+    solved = _closure(ex, {g.d[key] for g in gens for key in ('q', 'P', 'rem') if g.d[key] is not None})   # computed from the links
+    free = sorted(n for n in _closure(ex, roots) if n not in ex.sub and n not in solved)
+    lb = _lower_bounds(ex)
+    links = [(g, ex.inst(g.size), ex.inst(g.div)) for g in gens]
+    asm = [(op, ex.inst(a), ex.inst(b), t) for op, a, b, t, _ in ex.assumptions]
+    # second round, only when no small point is realisable at all: values next to the constants the links and assumptions mention
+    # (a fork `size > 1024 * part_size`, a divisor 10000) for the unknowns that occur next to them
+    consts: Set[int] = set()
+    near: Set[str] = set()
+    for p in [ia - ib for _, ia, ib, _ in asm] + [di for _, _, di in links] + [si for _, si, _ in links]:
+        big = {abs(c) for c in p.t.values() if abs(c) >= 3}
+        if big:
+            consts |= big
+            near |= set(p.unknowns())
+    consts = set(sorted(consts)[-2:])
+
     def through(pt: Dict[str, int], i: int) -> Iterator[Dict[str, int]]:
-        if i == len(gens):
+        if i == len(links):
             yield pt
             return
-        g = gens[i]
-        si, di = ex.inst(g.size), ex.inst(g.div)
-        if not all(u in pt for u in si.unknowns() + di.unknowns()):
+        g, si, di = links[i]
+        for u in si.unknowns() + di.unknowns():
+            if u not in pt:
+                return
+        sval, dval = si.at(pt), di.at(pt)
+        if dval < 1 or sval < 0:
             return
-        sv, dv = si.at(pt), di.at(pt)
-        if dv < 1 or sv < 0:
-            return
-        qv, rv = divmod(sv, dv)
-        targets = [(g.rem, rv)] + ([(g.P, dv)] if g.P is not None else []) + [(g.q, qv)]
+        qv, rv = divmod(sval, dval)
+        targets = [(g.rem, rv)] + ([(g.P, dval)] if g.P is not None else []) + [(g.q, qv)]
 
         def go(pt1: Dict[str, int], ts: List[Tuple[str, int]]) -> Iterator[Dict[str, int]]:
             if not ts:
                 yield from through(pt1, i + 1)
                 return
-            for pt2 in assign(pt1, ts[0][0], ts[0][1]):
+            for pt2 in sv.assign(pt1, ts[0][0], ts[0][1]):
                 yield from go(pt2, ts[1:])
         yield from go(pt, targets)
 
+    def holds(pt: Dict[str, int]) -> bool:
+        for op, ia, ib, t in asm:
+            for u in ia.unknowns() + ib.unknowns():
+                if u not in pt:
+                    return False
+            if OPS[op](ia.at(pt), ib.at(pt)) != t:
+                return False
+        return True
+
+    out: List[Dict[str, int]] = []
+    for rnd in (0, 1):
+        if rnd == 0:
+            cands = [[lb.get(n, 0) + d for d in (0, 1, 2)] for n in free]
+        else:
+            if out or not consts:
+                break
+            cands = [sorted({lb.get(n, 0) + d for d in (0, 1, 2)} | ({max(0, c + d) for c in consts for d in (-3, -2, -1, 0, 1)} if n in near else set())) for n in free]
+        combos = sorted(itertools.product(*[range(len(c)) for c in cands]), key=lambda c: (sum(c), c))[:limit if rnd == 0 else 12000]
+        for combo in combos:
+            pt0 = {n: cands[j][combo[j]] for j, n in enumerate(free)}
+            for pt in through(pt0, 0):
+                if holds(pt):
+                    out.append(pt)
+            if len(out) >= (limit if rnd == 0 else 40):
+                break
+    root.__dict__['_points'] = (stamp, out)
+    return out
+
+
+def real_points(ex: Exec, want: Set[str], limit: int = 729) -> Iterator[Dict[str, int]]:
+    """Valuations of (at least) the unknowns `want` that are real inputs.  Without generations and assumptions: the small points of N^k.
+    Otherwise the realisable points of the finished execution this one belongs to (`_root_points`), extended to the unknowns that this
+    execution defines differently (the part-kind encodings u_ = shift + c_ + e_) or that are free here."""
+    root = ex.__dict__.get('root') or ex
+    if not root.gens and not root.assumptions:
+        yield from witnesses(want, limit=limit)
+        return
+    sv = _Solver(ex)
+    redefined = [n for n in ex.sub if n not in root.sub or root.sub[n] != ex.sub[n]]
     n_out = 0
-    for combo in combos:
-        pt0 = {n: cands[j][combo[j]] for j, n in enumerate(free)}
-        for pt in through(pt0, 0):
-            ok = True
-            for op, a, b, t, _ in ex.assumptions:
-                ia, ib = ex.inst(a), ex.inst(b)
-                if not all(u in pt for u in ia.unknowns() + ib.unknowns()) or OPS[op](ia.at(pt), ib.at(pt)) != t:
-                    ok = False
-                    break
-            if not ok:
-                continue
-            missing = [u for u in closure(want) if u not in ex.sub and u not in pt]
-            if missing:
-                continue
-            yield pt
-            n_out += 1
-            if n_out >= limit:
-                return
+    for base in _root_points(root):
+        pts: List[Dict[str, int]] = [dict(base)]
+        for n in redefined:
+            if n in base:
+                v = base[n]
+                nxt: List[Dict[str, int]] = []
+                for pt in pts:
+                    pt = {k: x for k, x in pt.items() if k != n}
+                    nxt.extend(sv.assign_poly(pt, ex.sub[n], v))
+                pts = nxt
+        for pt in pts:
+            loose = sorted(u for u in _closure(ex, set(want)) if u not in ex.sub and u not in pt)
+            for combo in itertools.product((0, 1, 2), repeat=len(loose)):
+                p2 = dict(pt)
+                p2.update(zip(loose, combo))
+                yield p2
+                n_out += 1
+                if n_out >= limit:
+                    return
 
 
 def explore(make: Callable[[List[Any]], Exec], limit: int = 600) -> Iterator[Tuple[Exec, str]]:
@@ -1003,10 +1096,42 @@ def loop_cases(ex: Exec, loop: ast.While) -> Dict[str, Any]:
             if not seen.get(clause):
                 seen[clause] = True
                 problems.append((clause, msg))
+        # other integers carried from one iteration to the next (a running offset, a done-so-far count): the body is executed once, so their
+        # value at the head of an arbitrary iteration must be an invariant.  x = x0 + (n0 - n) / x0 - (n0 - n) is tried (it holds before the
+        # first iteration and is kept when the body changes x by exactly what it takes from / adds to the counter); anything else is opaque.
+        loaded = {x.id for st in loop.body for x in ast.walk(st) if isinstance(x, ast.Name) and isinstance(x.ctx, ast.Load)}
+        carried = [nm for nm in assigned if nm != cn and nm in loaded and nm in saved_env]
+        inv: Dict[str, Any] = {}
+        for nm in carried:
+            x0 = saved_env[nm]
+            guess: Any = Op('loopvar', name=nm)
+            if isinstance(x0, Poly):
+                signs = set()
+                for _, csub in cases:
+                    csub = dict(csub)
+                    csub['L'] = ONE + Poly.var('l_')
+                    probe = {c2: Op('loopvar', name=c2) for c2 in carried if c2 != nm}
+                    probe.update({cn: nv, nm: Poly.var(nm + '__')})
+                    try:
+                        _, _, env_after = run_body(csub, probe)
+                    except AnalysisError:
+                        signs.add(None)
+                        continue
+                    xa, na = env_after.get(nm), env_after.get(cn)
+                    if isinstance(xa, Poly) and isinstance(na, Poly):
+                        delta, dec = xa - Poly.var(nm + '__'), nv - na
+                        signs.add(1 if delta == dec else -1 if delta == -dec else None)
+                    else:
+                        signs.add(None)
+                if signs == {1}:
+                    guess = x0 + (saved_env[cn] - nv)
+                elif signs == {-1}:
+                    guess = x0 - (saved_env[cn] - nv)
+            inv[nm] = guess
         for cdesc, csub in cases:
             csub = dict(csub)
             csub['L'] = ONE + Poly.var('l_')
-            status, evs, env_after = run_body(csub, {cn: nv})
+            status, evs, env_after = run_body(csub, dict(inv, **{cn: nv}))
             where = f'case {cdesc}'
             if status not in ('fall', 'continue'):
                 fail('exit', f'{where}: the loop body ends by `{status}` before the count is exhausted')
